@@ -132,6 +132,9 @@ def run(ctx):
                 '(callable, position, code, other-argument types)')
     kf59 = any(e['id'] == 'D59' and e.get('status') == 'known' for e in ctx.known)
     pool = scalar_pool()
+    if ctx.tier == 'thorough' or ctx.widen:
+        pool = pool + [ctx.rng.randint(-999, 999) for _ in range(6)] + [ctx.rng.randint(-999, 999) / 8 for _ in range(6)] \
+            + [''.join(ctx.rng.choice('abXY 019.-e') for _ in range(ctx.rng.randint(1, 5))) for _ in range(8)]
     errs = [err(c) for c in CODES]
 
     # ---------------------------------------------------------------- (1) operators
